@@ -22,6 +22,7 @@ type Merger struct {
 	pass     bool
 	revision revision
 	minIndex int32
+	total    int
 }
 
 // PassMerger returns a new Merger that simply returns the items in the
@@ -43,6 +44,7 @@ func PassMerger(chunks *[]*Chunk, tac bool, revision revision) *Merger {
 	for _, chunk := range *mg.chunks {
 		mg.count += chunk.count
 	}
+	mg.total = mg.count
 	return &mg
 }
 
